@@ -106,10 +106,16 @@ func (s *store) wipe() bool {
 // memtable for ~30s after Close; creating one per sequence exhausts memory at
 // thorough depth. Client-side caches (region cache) stay warm, data does not.
 type world struct {
-	st  *store
-	raw []*rawkv.Client
-	txn []*tikv.KVStore
+	st   *store
+	raw  []*rawkv.Client
+	txn  []*tikv.KVStore
+	uses int
 }
+
+// A world is retired after worldMaxUses sequences: the mock's leveldb keeps every
+// overwritten / deleted version (and mocktikv never releases its scan iterators),
+// so scans over a long-lived store get slower and slower.
+const worldMaxUses = 400
 
 var (
 	worldMu    sync.Mutex
@@ -135,6 +141,11 @@ func getWorld(key string, mk func(w *world) error) (*world, error) {
 func putWorld(key string, w *world) {
 	if diffAbort.Load() {
 		return // abandoned operations may still run on it
+	}
+	w.uses++
+	if w.uses >= worldMaxUses {
+		w.close()
+		return
 	}
 	if !w.st.wipe() {
 		run.Incomplete("differential: could not wipe a mock store for reuse")
